@@ -233,6 +233,9 @@ func Search(root *world.Root, cfg Cfg) Stats {
 					hist = append(append([]world.Step{}, base...), world.Step{Ev: ev, Restart: regime, Choices: c.Prefix})
 				}
 				t := Replay(root, hist)
+				if cfg.Ctx != nil {
+					cfg.Ctx.Tick() // the watchdog times one transition, not the whole search below this root
+				}
 				t.Regime = regime
 				st.Execs += len(hist)
 				st.Transitions++
